@@ -300,9 +300,23 @@ def match_known(known, key):
     if key in known:
         return known[key]
     for k, ent in known.items():
-        if k.endswith("*") and key.startswith(k[:-1]):
+        if "*" in k and _glob(k, key):
             return ent
     return None
+
+
+def _glob(pat, key):
+    """`*` in a known-finding key matches any run of characters (nothing else is special)"""
+    parts = pat.split("*")
+    if not key.startswith(parts[0]):
+        return False
+    pos = len(parts[0])
+    for mid in parts[1:-1]:
+        i = key.find(mid, pos)
+        if i < 0:
+            return False
+        pos = i + len(mid)
+    return len(key) - pos >= len(parts[-1]) and key.endswith(parts[-1])
 
 
 def cfg(spec="Spec", constants=None, invariants=(), properties=(), view=None, constraint=None,
